@@ -92,6 +92,17 @@ def stage_nesting(ctx):
             verdict, m = contains(cc, c0, 0)
             if verdict != "in":
                 raise Violation("segment_centre_outside_face", {"cell": hex(c1), "path": []}, observed=f"{verdict} {m:.3g}", expected="inside parent face")
+            # exact nesting: a segment is the triangle (face centre, two adjacent face corners)
+            tri = a5.cell_to_boundary(c1, {"segments": 1, "closed_ring": False})
+            fc = a5.cell_to_lonlat(c0)
+            allowed = list(ring) + [fc]
+            if len(tri) != 3:
+                raise Violation("segment_ring_not_triangle", {"cell": hex(c1), "path": []}, observed=len(tri), expected=3)
+            for v in tri:
+                d = min(refgeo.gc_dist(v, w) for w in allowed)
+                col.measure("segment_corner_to_face_corner_or_centre_rad", d, {"cell": hex(c1)})
+                if d > 1e-9:
+                    raise Violation("segment_does_not_nest_in_face", {"cell": hex(c1), "path": []}, observed=f"corner {d:.3g} rad from every face corner and the face centre", expected="<= 1e-9")
             col.bulk(1, 1, cls="nesting", sample={"cell": hex(c1)})
     col.exhaustive["12 faces x 5 segments nesting"] = True
 
